@@ -36,21 +36,30 @@ DenseKinds   == {"Dense", "DenseView", "Basic", "RawDense"}
 SymKinds     == {"Sym", "SymView", "BasicSym", "RawSym"}
 TriUKinds    == {"TriU", "TriUView", "BasicTriU", "RawTriU"}
 TriLKinds    == {"TriL", "TriLView", "BasicTriL", "RawTriL"}
-BandKinds    == {"Band", "BasicBand"}
+BandKinds    == {"Band", "BasicBand", "BandS"}
 VecKinds     == {"Vec", "VecInc", "RowOfDense", "BasicVec", "RawVec"}
 SquareOnly   == SymKinds \cup TriUKinds \cup TriLKinds
                 \cup {"SymBand", "TriBandU", "TriBandL", "Diag", "DiagOfDense", "Tridiag", "Chol"}
+                \cup {"SymBandS", "TriBandUS", "TriBandLS", "TridiagS"}
+\* the kinds ending in S are built through the SetRaw* methods (SetRawBand, SetRawSymBand, SetRawTriBand,
+\* SetRawTridiagonal) on a zero value; the band ones with a stride one larger than the band width, so
+\* that every row of the band storage ends in a slot that is never referenced
+SymBandKinds == {"SymBand", "SymBandS"}
+TriBandUKinds == {"TriBandU", "TriBandUS"}
+TriBandLKinds == {"TriBandL", "TriBandLS"}
+TriBandKinds == TriBandUKinds \cup TriBandLKinds
+TridiagKinds == {"Tridiag", "TridiagS"}
 AllKinds     == DenseKinds \cup BandKinds \cup VecKinds \cup SquareOnly
 
 \* kinds whose (i,j) and (j,i) share one slot
-SymmetricStorage == SymKinds \cup {"SymBand"}
+SymmetricStorage == SymKinds \cup SymBandKinds
 
 \* which wrappers the Go types offer (the method that returns them)
 Wrappers(kind) ==
     {"N", "T"}
-    \cup (IF kind \in TriUKinds \cup TriLKinds \cup {"TriBandU", "TriBandL", "Diag"} THEN {"TTri"} ELSE {})
-    \cup (IF kind \in BandKinds \cup {"SymBand", "TriBandU", "TriBandL", "Diag", "Tridiag"} THEN {"TBand"} ELSE {})
-    \cup (IF kind \in {"TriBandU", "TriBandL", "Diag"} THEN {"TTriBand"} ELSE {})
+    \cup (IF kind \in TriUKinds \cup TriLKinds \cup TriBandKinds \cup {"Diag"} THEN {"TTri"} ELSE {})
+    \cup (IF kind \in BandKinds \cup SymBandKinds \cup TriBandKinds \cup TridiagKinds \cup {"Diag"} THEN {"TBand"} ELSE {})
+    \cup (IF kind \in TriBandKinds \cup {"Diag"} THEN {"TTriBand"} ELSE {})
     \cup (IF kind \in {"Vec", "VecInc", "RowOfDense"} THEN {"TVec"} ELSE {})
 
 Rep(kind, r, c, p, q, tw) == [kind |-> kind, r |-> r, c |-> c, p |-> p, q |-> q, tw |-> tw]
@@ -61,7 +70,7 @@ WellFormed(rep) ==
     /\ rep.kind \in SquareOnly => rep.r = rep.c
     /\ rep.kind \in VecKinds => rep.c = 1
     /\ rep.kind \in BandKinds => rep.p < rep.r /\ rep.q < rep.c          \* kl < r, ku < c
-    /\ rep.kind \in {"SymBand", "TriBandU", "TriBandL"} => rep.p < rep.r  \* k < n
+    /\ rep.kind \in SymBandKinds \cup TriBandKinds => rep.p < rep.r    \* k < n
     /\ rep.kind = "VecInc" => rep.p < rep.q /\ rep.q >= 2                 \* column p of an r x q parent
     /\ rep.kind = "RowOfDense" => rep.p < rep.q                           \* row p of a q x r parent
     /\ rep.tw \in Wrappers(rep.kind)
@@ -73,11 +82,13 @@ StoreLen(rep) ==
       [] k = "DenseView" -> (r + p + 1) * (c + q + 1)
       [] k \in {"Sym", "BasicSym", "RawSym", "TriU", "TriL", "BasicTriU", "BasicTriL", "RawTriU", "RawTriL", "Chol"} -> r * r
       [] k \in {"SymView", "TriUView", "TriLView"} -> (r + p + 1) * (r + p + 1)
-      [] k \in BandKinds -> Min2(r, c + p) * (p + q + 1)
+      [] k \in {"Band", "BasicBand"} -> Min2(r, c + p) * (p + q + 1)
+      [] k = "BandS" -> Min2(r, c + p) * (p + q + 2)
       [] k \in {"SymBand", "TriBandU", "TriBandL"} -> r * (p + 1)
+      [] k \in {"SymBandS", "TriBandUS", "TriBandLS"} -> r * (p + 2)
       [] k = "Diag" -> r
       [] k = "DiagOfDense" -> r * (r + q)
-      [] k = "Tridiag" -> 3 * r - 2
+      [] k \in TridiagKinds -> 3 * r - 2
       [] k \in {"Vec", "BasicVec", "RawVec"} -> r
       [] k = "VecInc" -> r * q
       [] k = "RowOfDense" -> q * r
@@ -94,14 +105,18 @@ Slot(rep, i, j) ==
       [] k \in {"TriL", "BasicTriL", "RawTriL"} -> IF i >= j THEN (i - 1) * r + j ELSE 0
       [] k = "TriUView" -> IF i <= j THEN (i - 1 + p) * (r + p + 1) + j + p ELSE 0
       [] k = "TriLView" -> IF i >= j THEN (i - 1 + p) * (r + p + 1) + j + p ELSE 0
-      [] k \in BandKinds -> LET d == j - i + p IN
-                            IF d >= 0 /\ d <= p + q THEN (i - 1) * (p + q + 1) + d + 1 ELSE 0
-      [] k = "SymBand" -> IF b - a <= p THEN (a - 1) * (p + 1) + (b - a) + 1 ELSE 0
-      [] k = "TriBandU" -> IF i <= j /\ j - i <= p THEN (i - 1) * (p + 1) + (j - i) + 1 ELSE 0
-      [] k = "TriBandL" -> IF j <= i /\ i - j <= p THEN (i - 1) * (p + 1) + p + j - i + 1 ELSE 0
+      [] k \in BandKinds -> LET d == j - i + p                          \* row stride of the band storage
+                                ld == IF k = "BandS" THEN p + q + 2 ELSE p + q + 1 IN
+                            IF d >= 0 /\ d <= p + q THEN (i - 1) * ld + d + 1 ELSE 0
+      [] k \in SymBandKinds -> LET ld == IF k = "SymBandS" THEN p + 2 ELSE p + 1 IN
+                               IF b - a <= p THEN (a - 1) * ld + (b - a) + 1 ELSE 0
+      [] k \in TriBandUKinds -> LET ld == IF k = "TriBandUS" THEN p + 2 ELSE p + 1 IN
+                                IF i <= j /\ j - i <= p THEN (i - 1) * ld + (j - i) + 1 ELSE 0
+      [] k \in TriBandLKinds -> LET ld == IF k = "TriBandLS" THEN p + 2 ELSE p + 1 IN
+                                IF j <= i /\ i - j <= p THEN (i - 1) * ld + p + j - i + 1 ELSE 0
       [] k = "Diag" -> IF i = j THEN i ELSE 0
       [] k = "DiagOfDense" -> IF i = j THEN (i - 1) * (r + q) + i ELSE 0
-      [] k = "Tridiag" -> IF i = j + 1 THEN j                      \* DL[j]
+      [] k \in TridiagKinds -> IF i = j + 1 THEN j                      \* DL[j]
                           ELSE IF i = j THEN (r - 1) + i           \* D[i]
                           ELSE IF j = i + 1 THEN (r - 1) + r + i   \* DU[i]
                           ELSE 0
